@@ -59,7 +59,7 @@ func T3EncBufferBounds(p *AsmProg, kind string) func(x *Exec) {
 		switch kind {
 		case "string", "qstring":
 			vp = Ptr{Obj: hdr, Off: x.c64(0)}
-		case "scalar":
+		case "scalar", "marshaler":
 			// an 8-byte scalar (integer of any width, float, bool in the low byte): arbitrary bits
 			sc := x.newObject(8, nil, "scalar")
 			x.storeLeaf(sc, 0, 8, x.newInput("scalar", 64))
@@ -76,6 +76,7 @@ func T3EncBufferBounds(p *AsmProg, kind string) func(x *Exec) {
 		cur := buf // the current output buffer (replaced by GrowSlice)
 		nospace, ncalls := 0, 0
 		consumed := x.c64(0) // input bytes the native quoter reported as consumed so far
+		marshalerCalled := false
 		returned := false
 		var dbgTrace []int
 		clobber := func(as *AsmState, regs ...string) {
@@ -193,6 +194,13 @@ func T3EncBufferBounds(p *AsmProg, kind string) func(x *Exec) {
 					as.R["AX"] = n
 					x.covers["formatted"] = true
 					return true
+				case strings.HasSuffix(sym.Name, "prim.EncodeJsonMarshaler") || strings.HasSuffix(sym.Name, "prim.EncodeTextMarshaler"):
+					// the user's marshaler runs: arbitrary success / failure, buffer handled through rb
+					marshalerCalled = true
+					clobber(as, "CX", "DX", "SI", "DI", "R8", "R9", "R10", "R11")
+					as.R["AX"] = x.c64(0)
+					as.R["BX"] = x.c64(0)
+					return true
 				case strings.HasSuffix(sym.Name, "/rt.GrowSlice"):
 					// GrowSlice(et AX, old{ptr BX, len CX, cap DI}, cap SI) -> {ptr AX, len BX, cap CX}:
 					// a fresh buffer with the old length and a capacity of at least the requested one
@@ -230,6 +238,15 @@ func T3EncBufferBounds(p *AsmProg, kind string) func(x *Exec) {
 			x.check(s.Ule(l, c), "assert", "encoder returns a buffer whose length exceeds its capacity")
 			x.check(s.Ule(c, x.objLSize(cur)), "assert", "encoder returns a buffer whose capacity exceeds its allocation")
 			x.covers["returned"] = true
+			if kind == "marshaler" {
+				// a map (or any non-pointer, non-interface) value whose type implements a marshaler
+				// interface is encoded by calling the method - also when the map is nil, as
+				// encoding/json does; only nil pointers and nil interfaces become null
+				x.check(s.Bool(marshalerCalled), "assert", "a value whose type implements a marshaler interface is encoded without calling the method (a nil map becomes null)")
+				if marshalerCalled {
+					x.covers["marshaler-called"] = true
+				}
+			}
 		}
 	}
 }
